@@ -7,6 +7,7 @@ import (
 	"context"
 	"errors"
 	"fmt"
+	"math/rand"
 	"sync"
 	"time"
 )
@@ -121,9 +122,13 @@ type Link struct {
 	blackhole bool
 	blockSend bool
 	sendCost  time.Duration
-	t0        time.Time
-	spinAt    time.Time
-	spinN     int
+	// jitter: PRNG-chosen durations of Send and Recv calls (see SetJitter)
+	jitRng *rand.Rand
+	jitP   float64
+	jitMax time.Duration
+	t0     time.Time
+	spinAt time.Time
+	spinN  int
 
 	// OnSend, if set, is called synchronously from Send (in the sender's
 	// goroutine) before the packet is queued.
@@ -185,6 +190,25 @@ func (l *Link) SetSendCost(d time.Duration) {
 	l.mu.Lock()
 	l.sendCost = d
 	l.mu.Unlock()
+}
+
+// SetJitter makes a fraction p of the Send and Recv calls take a PRNG-chosen
+// time in [1ns, max] (a transport whose calls are not instantaneous). In virtual
+// time this reorders everything else that happens at the same instant around the
+// call. FIN packets are exempt: Close sends them inside a sync.Once, and a
+// bubble cannot advance its clock while another goroutine waits for that Once.
+func (l *Link) SetJitter(seed int64, p float64, max time.Duration) {
+	l.mu.Lock()
+	l.jitRng, l.jitP, l.jitMax = rand.New(rand.NewSource(seed)), p, max
+	l.mu.Unlock()
+}
+
+// jitterLocked draws the extra duration of one call.
+func (l *Link) jitterLocked() time.Duration {
+	if l.jitRng == nil || l.jitMax <= 0 || l.jitRng.Float64() >= l.jitP {
+		return 0
+	}
+	return 1 + time.Duration(l.jitRng.Int63n(int64(l.jitMax)))
 }
 
 // SetBlockSend makes Send block until its context is cancelled.
@@ -256,6 +280,9 @@ func (l *Link) Send(ctx context.Context, b []byte) error {
 	p := Parse(b)
 	onSend := l.OnSend
 	cost := l.sendCost
+	if p.Type != TFin {
+		cost += l.jitterLocked()
+	}
 	l.mu.Unlock()
 
 	if cost > 0 {
@@ -304,6 +331,7 @@ func (l *Link) Send(ctx context.Context, b []byte) error {
 // Recv returns the next packet once its delivery time has come. It implements
 // gbn's recvBytesFunc and may be called from several goroutines.
 func (l *Link) Recv(ctx context.Context) ([]byte, error) {
+	jittered := false
 	for {
 		l.mu.Lock()
 		if l.closed {
@@ -315,6 +343,21 @@ func (l *Link) Recv(ctx context.Context) ([]byte, error) {
 		if len(l.q) > 0 {
 			head := l.q[0]
 			wait = time.Until(head.at)
+			if wait <= 0 && !jittered {
+				// a slow read: the call takes a little before it
+				// picks the packet up (the delivery is logged when
+				// the packet is really handed over)
+				jittered = true
+				if jit := l.jitterLocked(); jit > 0 {
+					l.mu.Unlock()
+					select {
+					case <-time.After(jit):
+					case <-ctx.Done():
+						return nil, ctx.Err()
+					}
+					continue
+				}
+			}
 			if wait <= 0 {
 				l.q = l.q[1:]
 				l.nDeliv++
